@@ -49,6 +49,9 @@ KERNEL_OPS = {
     'i128_shifted': [('div', ALL_DEC, ALL_DEC), ('div_rounded', ALL_DEC, ALL_DEC)],
     'i128_magnitude': [('magnitude', ALL_DEC, None), ('try_from_float', ('f64',), None)],
     'less_than_5': [('magnitude', ALL_DEC, None)],
+    'ArchivedDecimal': [('rkyv_eq', ALL_DEC, ALL_DEC), ('rkyv_eq_dec', ALL_DEC, ALL_DEC), ('rkyv_dec_eq', ALL_DEC, ALL_DEC),
+                        ('rkyv_partial_cmp', ALL_DEC, ALL_DEC), ('rkyv_cmp', ALL_DEC, ALL_DEC), ('rkyv_partial_cmp_dec', ALL_DEC, ALL_DEC),
+                        ('rkyv_dec_partial_cmp', ALL_DEC, ALL_DEC), ('rkyv_roundtrip', ALL_DEC, None)],
     'parser::': [('from_str', ('s',), None)],
     'from_str::': [('from_str', ('s',), None)],
     'format::': [('to_string', ALL_DEC, None), ('string_from', ALL_DEC, None), ('debug', ALL_DEC, None), ('format', ALL_DEC, None)],
@@ -191,7 +194,10 @@ _DRIVER = {}
 
 def driver(profile='dev'):
     if profile not in _DRIVER:
-        _DRIVER[profile] = build_driver.build(profile)
+        if profile == 'rkyv':
+            _DRIVER[profile] = build_driver.build('dev', features=('rkyv',))
+        else:
+            _DRIVER[profile] = build_driver.build(profile)
     return _DRIVER[profile]
 
 
@@ -224,7 +230,7 @@ def _search(pid, r, d, key, tier, seed, profile_pair=None, budget=None):
             for rk in (rks or (None,)):
                 if time.time() > deadline:
                     return None
-                ls = operands(lk, rng, 400)
+                ls = operands(lk, rng, 400 if rk else 4000)
                 rs = operands(rk, rng, 60) if rk else ['-']
                 modes = oracle.MODES if op in ROUNDING_OPS else ['RoundHalfEven']
                 ns = [0]
@@ -262,7 +268,7 @@ def compare(lines, metas, profile_pair=None):
                         'expected': 'same outcome in both profiles', 'got': '%s: %s / %s: %s' % (profile_pair[0], ga, profile_pair[1], gb),
                         'profiles': list(profile_pair)}
         return None
-    outs = run_batch(lines)
+    outs = run_batch(lines, 'rkyv' if (metas and metas[0][0].startswith('rkyv_')) else 'dev')
     for (op, l, rr, n, m, pr), got in zip(metas, outs):
         if got in ('BADARG', 'BADOP'):
             continue
